@@ -6,8 +6,10 @@ package main
 import (
 	"fmt"
 	"os"
+	"runtime"
 	"runtime/debug"
 	"sort"
+	"strconv"
 	"strings"
 	"sync"
 	"sync/atomic"
@@ -73,6 +75,9 @@ type explorer struct {
 	maxTraceLen   int
 	wall          float64
 	budgetHit     bool
+	stoppedEarly  bool // enough counterexample candidates: the rest of the space was not explored
+	vioSeen       int
+	vioPerID      map[string]int
 	modelsTaken   int
 	modelsUnknown int
 	single        bool
@@ -95,7 +100,64 @@ func (x *explorer) noteQuery(si int) {
 	}
 }
 
+// addViolation keeps at most 40 counterexample candidates per assertion (the
+// native replay looks at 12) and ends the exploration of the harness once 400
+// are known in all: a counterexample does not need the rest of the space.
+// Called with x.mu held.
+func (x *explorer) addViolation(v violation) {
+	if x.vioPerID == nil {
+		x.vioPerID = map[string]int{}
+	}
+	x.vioSeen++
+	x.vioPerID[v.AssertID]++
+	if x.vioPerID[v.AssertID] <= 40 {
+		x.violations = append(x.violations, v)
+	}
+	if x.vioSeen >= 400 && !x.stop {
+		x.stop = true
+		x.stoppedEarly = true
+	}
+}
+
+// memoryExceeded: the process heap is beyond the guard (default 12 GB,
+// SYMGO_MEM_MB); checked at most twice a second.
+var (
+	memMu      sync.Mutex
+	memChecked time.Time
+	memOver    bool
+)
+
+func memoryExceeded() bool {
+	memMu.Lock()
+	defer memMu.Unlock()
+	if time.Since(memChecked) < 500*time.Millisecond {
+		return memOver
+	}
+	memChecked = time.Now()
+	limit := uint64(12 << 30)
+	if v := os.Getenv("SYMGO_MEM_MB"); v != "" {
+		if n, err := strconv.Atoi(v); err == nil && n > 0 {
+			limit = uint64(n) << 20
+		}
+	}
+	var ms runtime.MemStats
+	runtime.ReadMemStats(&ms)
+	memOver = ms.HeapAlloc > limit
+	return memOver
+}
+
 func (x *explorer) stopped() bool {
+	if memoryExceeded() {
+		x.mu.Lock()
+		if !x.stop {
+			x.stop = true
+			x.budgetHit = true
+			x.inconclusive = append(x.inconclusive, "memory guard: the engine's heap exceeded its limit while exploring "+x.harness)
+		}
+		x.mu.Unlock()
+		x.cond.Broadcast()
+		return true
+	}
 	if !x.opts.Deadline.IsZero() && time.Now().After(x.opts.Deadline) {
 		x.mu.Lock()
 		if !x.stop {
@@ -376,7 +438,7 @@ func (x *explorer) runPath(pool []*Solver, prefix []decision) {
 			st[o.Status]++
 			switch o.Status {
 			case "violated":
-				x.violations = append(x.violations, violation{Harness: x.harness, AssertID: o.ID, Model: o.Model, Trace: m.trace, Kind: "assert", Source: "solver", Sched: sched})
+				x.addViolation(violation{Harness: x.harness, AssertID: o.ID, Model: o.Model, Trace: m.trace, Kind: "assert", Source: "solver", Sched: sched})
 			case "unknown":
 				x.inconclusive = append(x.inconclusive, "assertion "+o.ID+" undecided (solver unknown) in "+x.harness)
 			}
@@ -384,7 +446,9 @@ func (x *explorer) runPath(pool []*Solver, prefix []decision) {
 		for _, r := range m.reach {
 			x.reachSeen[r]++
 		}
-		x.violations = append(x.violations, vio...)
+		for _, v := range vio {
+			x.addViolation(v)
+		}
 	}
 	for f, n := range m.funcsRun {
 		x.funcs[f.String()] += n
